@@ -417,6 +417,8 @@ def gen_plan(rng, tier):
                     sub.append(["ticks", rng.choice([None, None, 2, 5, 10, 20, 1, 3, 7, 50])])
                 elif k < 0.94:
                     sub.append(["ticks_iv", rng.choice(UNITS), rng.choice([1, 2, 5])])
+                elif k < 0.955:
+                    sub.append(["deepcopy"])
                 elif k < 0.97:
                     sub.append(["copy"])
                 else:
@@ -550,6 +552,11 @@ def _exec_op(op, stats, all_dts):
                 elif so[0] == "clamp":
                     s.clamp(so[1])
                     out.append(s.clamp())
+                elif so[0] == "deepcopy":
+                    import copy as _copy
+
+                    s = _copy.deepcopy(s)
+                    out.append(["deepcopied", s.domain()])
                 elif so[0] == "ticks_iv":
                     ts = list(s.ticks(d3_time[so[1]], so[2]))
                     out.append(ts)
@@ -622,12 +629,24 @@ def _exec_timeline(op, stats, all_dts):
     cls = TimelineSVG if backend == "svg" else TimelineTex
     tl = cls(data, options=options)
     doc = tl.export()
+    after = None
+    if opts.get("scale") == "own_time":
+        # the caller's own scale is used again after the timeline has been dropped and collected
+        import gc as _gc
+
+        sc = options["scale"]
+        del tl
+        _gc.collect()
+        try:
+            after = [sc.domain(), list(sc.ticks())[:20], sc.range()]
+        except Exception as e:
+            after = ["raise", type(e).__name__]
     stats["probe:timeline_exported"] = stats.get("probe:timeline_exported", 0) + 1
     if backend == "tex":
         stats["probe:tex_timeline_exported"] = stats.get("probe:tex_timeline_exported", 0) + 1
     if isinstance(doc, str):
         doc = doc.encode("utf-8")
-    return ["doc", sha(doc), len(doc)]
+    return ["doc", sha(doc), len(doc), after]
 
 
 def _strip_fold(x):
